@@ -13,7 +13,7 @@ NoneType = type(None)
 ATOMS = {
     "int": int, "str": str, "bool": bool, "NoneType": NoneType, "float": float, "Any": Any,
     "A": K.A, "B": K.B, "C": K.C, "D": K.D, "E": K.E, "Inner": K.Outer.Inner,
-    "X1": K.X1, "Y1": K.Y1,
+    "X1": K.X1, "Y1": K.Y1, "Color": K.Color, "Concrete": K.Concrete,
 }
 GENERICS = ("List", "Set", "Dict", "DefaultDict", "Tuple", "TupleVar", "TupleEmpty", "Type", "Callable", "IteratorAny",
             "Generator", "Union", "TD")
@@ -127,7 +127,14 @@ MEMBERS2 = (
     ("NoneType", NoneType), ("B", K.B), ("Dict[str,Union[List[int],A]]", Dict[str, Union[List[int], K.A]]), ("List[Any]", List[Any]),
     ("DefaultDict[Any,Any]", DefaultDict[Any, Any]), ("Tuple[int,int,int]", Tuple[int, int, int]), ("Set[int]", Set[int]),
 )
-ALPHABETS = {"MEMBERS": MEMBERS, "MEMBERS2": MEMBERS2}
+# third alphabet, for ORDERED PAIRS of rewriters: containers whose element type is itself a union with more members than
+# small limits (one rewriter may turn it into C[Any], which the next one reads as an empty container), same-kind
+# containers next to them, and tuples whose element type is a subscripted generic
+MEMBERS3 = (
+    ("Set[Union[int,str,float]]", Set[Union[int, str, float]]), ("Set[int]", Set[int]), ("List[Union[int,str,NoneType]]", List[Union[int, str, NoneType]]),
+    ("List[int]", List[int]), ("Tuple[List[int]]", Tuple[List[int]]), ("Tuple[int]", Tuple[int]), ("Tuple[str]", Tuple[str]), ("NoneType", NoneType),
+)
+ALPHABETS = {"MEMBERS": MEMBERS, "MEMBERS2": MEMBERS2, "MEMBERS3": MEMBERS3}
 WRAPPERS = ("bare", "List", "DictValue", "TDField", "GeneratorYield", "Optional", "TupleElem", "DefaultDictValue")
 
 
